@@ -1,5 +1,6 @@
 import Driver.Util
 import Lattigo.Model.LinTrans
+import Lattigo.Model.LinTransLazy
 
 /-
   C12 line protocol.
@@ -9,6 +10,7 @@ import Lattigo.Model.LinTrans
     alloc <diags> <logCols> <ratio>           → N1 <keys of Vec>
     at <keys> <i> <slots>                     → key found | err
     permdiags <half> (M <row> <from> <to> <scaling>)*   → idx:vec|idx:vec
+    margin <moduli>                           → QiOverflowMargin / PiOverflowMargin (-1 without moduli)
     eval <scheme> nth= t= rows= logcols= mode= inplace= ctlvl= ctscale= outlvl= qmodt= v=
          (LT ratio= lvl= scale= (D <idx> <vals>)*)*
 -/
@@ -173,6 +175,10 @@ def handle (toks : List String) : String :=
       let r := permDiagonals 2 half maps
       if r.isEmpty then "-" else "|".intercalate (r.map fun kv => s!"{kv.1}:{showVec kv.2}")
     | _, _ => badOp
+  | ["margin", qs] =>
+    match parseVec? qs with
+    | some qs => toString (Lazy.overflowMargin qs)
+    | none => badOp
   | "eval" :: rest => (evalLine rest).getD badOp
   | _ => badOp
 
